@@ -132,11 +132,20 @@ pub fn drive_eval(seed: u64, n: usize, sink: &mut Sink) -> usize {
             _ => {
                 let fixed = kind != 9;
                 let len = if fixed { 1 + rng.below(9) as usize } else { rng.below(13) as usize };
-                let c = match rng.below(3) {
+                let mut c = match rng.below(3) {
                     0 => (0..len).map(|_| rng.nice()).collect(),
                     _ => (0..len).map(|_| rng.float_exp(-8, 8)).collect::<Vec<f64>>(),
                 };
-                let v = match rng.below(8) {
+                if len > 1 && rng.below(3) == 0 {
+                    // no (or a negligible) constant term: the value is then as small as ln v itself
+                    c[0] = if rng.bool() { 0.0 } else { c[0] * 1e-12 };
+                }
+                let v = match rng.below(10) {
+                    // |v - 1| log-uniform over 2^-52 .. 2^-1: a special point must be approached at every scale
+                    8 | 9 => {
+                        let d = rng.float_exp(-52, -1).abs();
+                        if rng.bool() { 1.0 + d } else { 1.0 - d }
+                    }
                     0 => 1.0,
                     1 => {
                         let mut v = 1.0f64;
@@ -694,7 +703,11 @@ pub fn drive_pwops(seed: u64, rounds: usize, which: &str, sink: &mut Sink) -> us
 
 /// positive evaluation points / knot abscissae for log forms
 pub fn pos_point(rng: &mut Rng) -> f64 {
-    match rng.below(12) {
+    match rng.below(14) {
+        12 | 13 => {
+            let d = rng.float_exp(-52, -1).abs();
+            if rng.bool() { 1.0 + d } else { 1.0 - d }
+        }
         0 => 1.0,
         1 => 2.0,
         2 => 0.5,
@@ -1098,8 +1111,9 @@ fn spline_xs(rng: &mut Rng, n: usize) -> Vec<f64> {
 }
 
 fn spline_ys(rng: &mut Rng, n: usize) -> Vec<f64> {
-    let yscale = match rng.below(5) {
+    let yscale = match rng.below(6) {
         0 => rng.float_exp(-40, -20).abs(), // tiny ordinates: secant products far below epsilon
+        5 => rng.float_exp(-545, -480).abs(), // secant slopes whose product is subnormal (but not zero)
         1 => rng.float_exp(10, 30).abs(),
         _ => rng.float_exp(-3, 3).abs(),
     };
